@@ -147,7 +147,9 @@ def gen_cases(rng, n):
         elif k == 7:
             cs.append("join %d" % rng.below(2))
         elif k == 8:
-            cs.append(rng.choice(["sleep", "create %d" % rng.choice([-1, 2, 30, rng.below(1000)])]))
+            # child pids stay below mc::static_config::max_threads - 1 (= 31): above it the checker refuses the pid with
+            # "The model-checker assumes that no actor ID will ever be larger than 30" (a documented limit, not a codec matter)
+            cs.append(rng.choice(["sleep", "create %d" % rng.choice([-1, 2, 30, rng.below(31)])]))
         elif k == 9:
             cs.append("test %d" % rng.below(2))
         elif k == 10:
@@ -199,6 +201,15 @@ def run_mc_programs(ctx, prog, rng):
                 p = subprocess.run(cmd, capture_output=True, text=True, timeout=60, env=dict(os.environ, **ctx.sg_env()), cwd=ctx.work)
                 rc, err = p.returncode, (p.stdout + p.stderr)
                 ctx.notes.append("%s %d %d (%s) needed more than 20 s in the parallel batch; alone: rc=%s" % (kind, p1, p2, red, rc))
+            except subprocess.TimeoutExpired:
+                pass
+        if rc not in (0, "timeout") and kind != "mess" and not (kind == "testany" and "out_of_range" in err):
+            # an unexpected exit (abort while creating the checker's socket, loader error under load) is confirmed by a
+            # second, serial run before it becomes an alarm (same rule as props/_shared/mcref/mclib.run_many)
+            try:
+                p = subprocess.run(cmd, capture_output=True, text=True, timeout=60, env=dict(os.environ, **ctx.sg_env()), cwd=ctx.work)
+                ctx.notes.append("%s %d %d (%s) ended with rc=%s in the parallel batch; alone: rc=%s" % (kind, p1, p2, red, rc, p.returncode))
+                rc, err = p.returncode, (p.stdout + p.stderr)
             except subprocess.TimeoutExpired:
                 pass
         ctx.cov["evaluations"] += 1
